@@ -16,8 +16,25 @@ TYPE_RELATED = {"TypeError", "Arity", "ExpectedFunction", "MethodError", "NoCase
 
 def run(tier, seed):
     ck = Check("C16", "model_checking", tier, seed)
-    tres, origs = rf.originals(seed + 161, 400 if tier == "quick" else 4000, size=5, err_rate=0.35, only_ok=False)
+    import random
+    import gen_prog
+    import refrun
+    rnd = random.Random(seed * 83 + 16)
+    progs, srcs = refrun.gen_programs(seed + 161, 400 if tier == "quick" else 4000, 5, err_rate=0.35)
+    # one more kind of mistake, placed where the closure's own return type matters: a `return` of the wrong
+    # type as the first statement of a closure (whose declared return type differs from what surrounds it)
+    for p in progs:
+        lams = rf.nodes(p, lambda n: n["k"] == "lam")
+        if lams and rnd.random() < 0.4:
+            lam = rnd.choice(lams)
+            g = gen_prog.Gen(0)
+            g.nid = 100000 + p["id"] * 10
+            wrong = g.node("str", v="w") if rnd.random() < 0.5 else (g.node("bool", v=True) if lam.get("rt") != "Bool" else g.node("int", v=1))
+            lam["b"].insert(0, g.node("ret", e=wrong))
+            srcs[p["id"]] = gen_prog.render(p)
+    tres, exp = refrun.ref_expect(progs)
     ck.add_tlc(tres)
+    origs = [(p, srcs[p["id"]], exp[p["id"]]) for p in progs if exp[p["id"]]["outcome"] not in ("fuel", "big")]
     srcs = [s for _, s, _ in origs]
     chk = batch("frontend", [{"id": i, "src": s, "format": False} for i, s in enumerate(srcs)], timeout_per=3.0)
     runs = rf.run_all(srcs)
